@@ -202,7 +202,26 @@ def fmt_p(p):
 # ---------------------------------------------------------------- to the library
 
 
+_CACHE = None
+
+
+def set_cache(cache):
+    """Install (or remove, with None) a per-case cache: equal ASTs then convert to the *same* library object, so
+    expression / predicate objects are re-used across factory calls the way user code re-uses them."""
+    global _CACHE
+    _CACHE = cache
+
+
 def lib_e(e):
+    if _CACHE is not None:
+        key = ("e", e)
+        if key not in _CACHE:
+            _CACHE[key] = _lib_e(e)
+        return _CACHE[key]
+    return _lib_e(e)
+
+
+def _lib_e(e):
     from lsst.daf.relation import ColumnExpression
 
     k = e[0]
@@ -221,6 +240,15 @@ def lib_e(e):
 
 
 def lib_p(p, raw_connectives=True):
+    if _CACHE is not None:
+        key = ("p", p, raw_connectives)
+        if key not in _CACHE:
+            _CACHE[key] = _lib_p(p, raw_connectives)
+        return _CACHE[key]
+    return _lib_p(p, raw_connectives)
+
+
+def _lib_p(p, raw_connectives=True):
     """Convert to a library predicate.
 
     and/or are built with the dataclass constructors (so arities 0 and 1 really reach the library)
